@@ -30,6 +30,7 @@ func TestCheck(t *testing.T) {
 		"set of servers whose responses are built from, and disposed of into, the pools of a production dnsmsg.Cloner; " +
 		"(5) servers with pipeline limit 1 and 2 and a request-context timeout: connection A holds that many queries " +
 		"inside the handler (a gate the harness controls) while fresh connections B and C send ordinary queries; " +
+		"TCP and DoT frames are also written in pieces cut after the first prefix octet, after the prefix, inside the header and one byte before the end; " +
 		"(6) 160 sequential queries per DoQ connection whose FIN follows the query in a later packet; " +
 		"(7) datagrams of 513..4000 bytes (padded valid queries, valid queries followed by filler, garbage) over plain UDP, " +
 		"judged by their first 512 bytes. " +
@@ -233,6 +234,13 @@ func TestCheck(t *testing.T) {
 	r.Require("class:accept/handler-silent", int64(r.N(20, 200)))
 	r.Require("class:accept/handler-error", int64(r.N(40, 400)))
 	r.Require("class:accept/handler-write-error", int64(r.N(60, 600)))
+	// Stream framings cut inside and right behind the length prefix.
+	for _, name := range []string{"tcp-split", "dot-split"} {
+		r.Require("split:after-first-prefix-octet:"+name, int64(r.N(60, 600)))
+		r.Require("split:after-first-prefix-octet+all:"+name, int64(r.N(60, 600)))
+		r.Require("split:after-prefix:"+name, int64(r.N(60, 600)))
+	}
+
 	// Datagrams longer than the UDP read buffer, each batch followed by a
 	// liveness probe on the same listener.
 	r.Require("udp_oversize_datagrams:udp", int64(r.N(24, 100)))
